@@ -29,6 +29,6 @@ def Codec.strict : Codec → Option (Bytes → Except ErrKind Text)
   | .table tbl => some (tableStrict tbl)
   | .utf8 => some utf8Strict
   | .utf16 le => some (utf16Strict le)
-  | .opaque _ => none
+  | .external _ => none
 
 end Charset
